@@ -1,150 +1,53 @@
-(* C14: totality of the table solver at EVERY budget (also far below one cell per column), of the
+(* (the model of Layout.v takes the flexible-minimum variant FLEXMIN from the tree under check: everything
+   below is generic in that flag)
+   C14: totality of the table solver at EVERY budget (also far below one cell per column), of the
    Columns width search, and hence of Layout.render / Layout.measure on all trees whose tables have
    valid options.  Built on C07 (RatioP, TableP, TableP2), C01 (LayoutP2/6/7/8) and C08 (tree_dfs_prefix). *)
 From RichModel Require Import Prelude Cells Segments Ratio Frames Layout SpecLayout Total.
 From RichModel Require Table Wrap SpecTable.
 From RichProofs Require Import RatioP TableP TableP2 LayoutP LayoutP2 LayoutP8 LayoutP6 LayoutP7 FramesP5 TotalP2 TotalP3.
+From RichProofs Require LayoutP10.
 From Coq Require Import ZifyBool.
 
 Import Table.
 
-(* ------------------------------------------------------------------ _calculate_column_widths never fails *)
-Lemma reduce_loop_nonempty r rs m ms v vs rem tr : reduce_loop (r :: rs) (m :: ms) (v :: vs) rem tr <> [].
-Proof. cbn [reduce_loop]. destruct (negb (r =? 0) && (0 <? tr)); discriminate. Qed.
-
-Lemma ratio_reduce_nonempty total w1 : w1 <> [] -> ratio_reduce total (repeat 1 (length w1)) w1 w1 <> [].
+(* ------------------------------------------------------------------ _calculate_column_widths never fails
+   C01's LayoutP10 (calc_widths_x_total / calc_widths_x_bound: both variants of the flexible minimum, any
+   table min_width, any budget), cited and packaged *)
+Theorem calc_widths_x_total_spec fm o cols M :
+  cols <> [] -> Forall col_free cols -> pad_ok o ->
+  exists ws, calc_widths_x fm false false o cols M = Ok ws /\ length ws = length cols /\ Forall (fun w => 1 <= w) ws.
 Proof.
-  intros Hne. destruct w1 as [|v vs]; [congruence|]. unfold ratio_reduce. cbn [length repeat zip_mask].
-  match goal with |- context [if ?c then _ else _] => destruct c end; [discriminate|apply reduce_loop_nonempty].
-Qed.
-
-Lemma remeasure_ge1 o : pad_ok o -> forall w2 icols, Forall (fun ic => col_free (snd ic)) icols ->
-  Forall (fun w => 1 <= w) (map (fun '(w, (i, c)) => or1 (snd (measure_column o i c w))) (combine w2 icols)).
-Proof.
-  intros Hp w2 icols Hf. apply Forall_forall. intros x Hx. apply in_map_iff in Hx as [[w [i c]] [<- Hin]].
-  apply in_combine_r in Hin. rewrite Forall_forall in Hf. specialize (Hf _ Hin). cbn [snd] in Hf.
-  destruct (measure_column_snd o i c w Hp Hf) as [H0 _]. apply or1_pos. exact H0.
-Qed.
-
-Lemma finish_total o wf M : o_minw o = None -> wf <> [] -> Forall (fun w => 1 <= w) wf ->
-  exists ws,
-    (if ((sumZ wf <? M) && t_expand o) || false
-     then do pad <- ratio_distribute (M - sumZ wf) wf None; Ok (zip_add wf pad)
-     else Ok wf) = Ok ws.
-Proof.
-  intros _ Hne Hpos. pose proof (sumZ_pos_of_ones wf Hne Hpos) as Hs.
-  destruct (((sumZ wf <? M) && t_expand o) || false); [|eexists; reflexivity].
-  unfold ratio_distribute. replace (sumZ wf <=? 0) with false by lia. cbn [bind]. eexists. reflexivity.
-Qed.
-
-Theorem calc_widths_total o cols M :
-  o_minw o = None -> cols <> [] -> Forall col_free cols -> pad_ok o ->
-  exists ws, calc_widths false false o cols M = Ok ws.
-Proof.
-  intros Hmw Hne Hfree Hp. unfold calc_widths. rewrite Hmw. cbv zeta.
-  pose proof (indexed_forall col_free cols 0%nat Hfree) as Hifree.
-  destruct (initial_widths_pos o M Hp _ Hifree) as [Hr0 Hw0]. cbv zeta in Hr0, Hw0.
-  set (icols := indexed 0 cols) in *.
-  set (ranges := map (fun '(i, c) => measure_column o i c M) icols) in *.
-  set (ws0 := map (fun r => or1 (snd r)) ranges) in *.
-  assert (Hlr : length ranges = length cols) by (unfold ranges, icols; rewrite map_length; apply indexed_length).
-  assert (Hl0 : length ws0 = length cols) by (unfold ws0; rewrite map_length; exact Hlr).
-  (* stage 1: the ratio columns *)
-  match goal with |- exists ws, bind ?e _ = _ =>
-    assert (H1 : exists wd, e = Ok wd /\ Forall (fun w => 1 <= w) wd /\ length wd = length cols) end.
-  { destruct (t_expand o); [|exists ws0; repeat split; assumption].
-    match goal with |- context [any_nonzero ?r] => set (ratios := r) end.
-    destruct (any_nonzero ratios) eqn:Ean; [|exists ws0; repeat split; assumption].
-    match goal with |- context [ratio_distribute _ ratios (Some ?m)] => set (flex_min := m) end.
-    assert (Hrat : Forall (fun r => 1 <= r) ratios).
-    { unfold ratios. apply Forall_forall. intros x Hx. apply in_map_iff in Hx as [c [<- Hc]].
-      apply filter_In in Hc as [Hc Hfl]. rewrite Forall_forall in Hfree.
-      destruct (Hfree c Hc) as [_ [_ [_ [_ [Hr _]]]]]. unfold flexible in Hfl. unfold opt_or.
-      destruct (c_ratio c) as [x|]; [|discriminate]. destruct (x =? 0) eqn:Ex; lia. }
-    assert (Hmin : Forall (fun m => 1 <= m) flex_min).
-    { unfold flex_min. apply Forall_forall. intros x Hx. apply in_map_iff in Hx as [[i c] [<- Hc]].
-      apply filter_In in Hc as [Hc _]. apply indexed_in in Hc. rewrite Forall_forall in Hfree.
-      destruct (Hfree c Hc) as [Hcw _]. rewrite Hcw. cbn [opt_or].
-      pose proof (padding_width_nonneg o i Hp). lia. }
-    assert (Hlm : length flex_min = length ratios).
-    { unfold flex_min, ratios. rewrite !map_length. apply filter_indexed_length. }
-    assert (Hzm : zip_mask ratios flex_min = ratios).
-    { apply zip_mask_id; [exact Hlm|]. eapply Forall_impl; [|exact Hmin]. cbv beta. lia. }
-    assert (Hrne : ratios <> []) by (intros E; rewrite E in Ean; discriminate).
-    assert (Hmne : flex_min <> []) by (intros E; rewrite E in Hlm; destruct ratios; [congruence|discriminate]).
-    match goal with |- context [ratio_distribute ?t ratios (Some flex_min)] =>
-      destruct (ratio_distribute_some_ok t ratios flex_min Hmne
-                  ltac:(rewrite Hzm; apply sumZ_pos_of_ones; assumption)) as [fw Ed] end.
-    rewrite Ed. cbn [bind].
-    pose proof (ratio_distribute_min _ ratios flex_min fw
-                  ltac:(rewrite Hzm; eapply Forall_impl; [|exact Hrat]; cbv beta; lia) Hlm Ed) as Hdm.
-    pose proof (distribute_min_pos _ _ Hdm Hmin) as Hfw.
-    pose proof (forall2b_length _ _ _ Hdm) as Hlfw.
-    match goal with |- context [assign_flex cols ws0 ?fx fw] => set (fixed := fx) end.
-    assert (Hlfix : length fixed = length cols).
-    { unfold fixed. rewrite map_length, combine_length. lia. }
-    assert (Hfix : Forall (fun z => 0 <= z) fixed).
-    { apply Forall_forall. intros x Hx. apply in_map_iff in Hx as [[r c] [<- Hrc]].
-      destruct (flexible c); [lia|]. apply in_combine_l in Hrc. rewrite Forall_forall in Hr0. apply Hr0. exact Hrc. }
-    destruct (assign_flex_ok cols ws0 fixed fw Hl0 Hlfix) as [wd Ea].
-    { rewrite <- Hlfw, Hlm. unfold ratios. rewrite map_length. reflexivity. }
-    destruct (assign_flex_pos _ _ _ _ _ Ea Hw0 Hfix Hfw) as [A1 A2].
-    exists wd. split; [exact Ea|]. split; [exact A1|lia]. }
-  destruct H1 as [wd [E1 [Hwd Hld]]]. rewrite E1. cbn [bind]. clear E1.
-  assert (Hwdne : wd <> []) by (destruct wd; [destruct cols; [congruence|discriminate]|discriminate]).
-  assert (Hicne : icols <> []).
-  { unfold icols. destruct cols; [congruence|discriminate]. }
-  (* stage 2: collapse and re-measure; stage 3: padding *)
-  destruct (M <? sumZ wd) eqn:Elt.
-  - assert (Hwd0 : Forall (fun w => 0 <= w) wd) by (eapply Forall_impl; [|exact Hwd]; simpl; lia).
-    destruct (collapse_widths_spec wd (map wrapable cols) M ltac:(rewrite map_length; lia) Hwd0) as [w1 [Ec [Cok _]]].
-    rewrite Ec. cbn [bind].
-    assert (Hl1 : length w1 = length wd).
-    { unfold SpecTable.collapse_ok_b in Cok. repeat (apply andb_true_iff in Cok as [Cok _]).
-      apply Nat.eqb_eq in Cok. exact Cok. }
-    assert (Hw1ne : w1 <> []) by (destruct w1; [destruct wd; [congruence|discriminate]|discriminate]).
-    assert (Fin : forall W2, W2 <> [] -> exists ws,
-              (let w3 := map (fun '(w, (i, c)) => or1 (snd (measure_column o i c w))) (combine W2 icols) in
-               if ((sumZ w3 <? M) && t_expand o) || false
-               then do pad <- ratio_distribute (M - sumZ w3) w3 None; Ok (zip_add w3 pad)
-               else Ok w3) = Ok ws).
-    { intros W2 HW2. cbv zeta. apply (finish_total o _ M Hmw).
-      - destruct W2; [congruence|destruct icols; [congruence|discriminate]].
-      - apply remeasure_ge1; assumption. }
-    destruct (M <? sumZ w1); cbv beta iota zeta; cbn [bind].
-    + apply (Fin (ratio_reduce (sumZ w1 - M) (repeat 1 (length w1)) w1 w1)). apply ratio_reduce_nonempty. exact Hw1ne.
-    + apply (Fin w1 Hw1ne).
-  - cbn [bind]. apply (finish_total o wd M Hmw Hwdne Hwd).
+  intros Hne Hfree Hp. destruct (LayoutP10.calc_widths_x_total fm o cols M Hne Hfree Hp) as [ws E].
+  destruct (LayoutP10.calc_widths_x_bound fm o cols M ws Hne Hfree Hp E) as [L1 [L2 _]].
+  exists ws. repeat split; assumption.
 Qed.
 
 (* ------------------------------------------------------------------ valid table options *)
 Definition tbl_valid (t : tblspec) : bool :=
   let o := tb_o t in
   nonneg4 (Table.o_pad o)
-  && match Table.o_minw o with None => true | Some _ => false end
   && match tb_cols t with [] => false | _ => true end
   && Bool.eqb (Table.o_box o) (match tb_boxc t with Some _ => true | None => false end)
   && forallb col_ok (tb_cols t).
 
 Lemma table_solved cf t rows W : tbl_valid t = true ->
-  exists ws, Table.table_widths false false (tb_o t) (table_tcols t (table_cols cf t rows)) W = Ok ws
+  exists ws, Table.table_widths_x FLEXMIN false false (tb_o t) (table_tcols t (table_cols cf t rows)) W = Ok ws
              /\ Table.render_table false (tb_o t) (tb_boxc t) ws (table_rows t (table_cols cf t rows)) <> Crash K_IndexError
              /\ exists ls, Table.render_table false (tb_o t) (tb_boxc t) ws (table_rows t (table_cols cf t rows)) = Ok ls.
 Proof.
   intros Hok. unfold tbl_valid in Hok. repeat (apply andb_true_iff in Hok as [Hok ?]).
-  rename H into Hcols, H0 into Hbox, H1 into Hne, H2 into Hminw. rename Hok into Hpad.
+  rename H into Hcols, H0 into Hbox, H1 into Hne. rename Hok into Hpad.
   set (cells := table_cols cf t rows). set (cols := table_tcols t cells).
   assert (Hlen : length cols = length (tb_cols t)) by apply table_tcols_length.
-  destruct (Table.o_minw (tb_o t)) eqn:Eom; [discriminate|].
   assert (Hcne : cols <> []).
   { intros Hc. rewrite Hc in Hlen. destruct (tb_cols t); [discriminate|discriminate]. }
   assert (Hp : pad_ok (tb_o t)).
   { unfold pad_ok. unfold nonneg4 in Hpad. destruct (Table.o_pad (tb_o t)) as [[[a b] c] d]. lia. }
-  unfold Table.table_widths.
+  unfold Table.table_widths_x.
   set (M := Table.target_width (tb_o t) W - Table.extra_width (tb_o t) (length cols)).
-  destruct (calc_widths_total (tb_o t) cols M Eom Hcne (table_tcols_free cf t rows Hcols) Hp) as [ws Ew].
+  destruct (calc_widths_x_total_spec FLEXMIN (tb_o t) cols M Hcne (table_tcols_free cf t rows Hcols) Hp) as [ws [Ew [L1 L2]]].
   exists ws. split; [exact Ew|].
-  destruct (calc_widths_bound (tb_o t) cols M ws Eom Hcne (table_tcols_free cf t rows Hcols) Hp Ew) as [L1 [L2 L3]].
   assert (Hbx : box_agrees (tb_o t) (tb_boxc t)).
   { split.
     - apply Bool.eqb_prop in Hbox. exact Hbox.
@@ -311,7 +214,7 @@ Proof.
     cbn [fails]. destruct (W <? 1); [reflexivity|].
     change (table_cols cf t (map (map (fun c : R => den cf c)) rows)) with (table_cols cf t (map (map (fun c : R => den cf c)) rows)).
     rewrite (table_fail_none cf t (map (map (fun c : R => den cf c)) rows) W Ht).
-    destruct (Table.table_widths false false (tb_o t) _ W) as [ws|e|k]; [|reflexivity|reflexivity].
+    destruct (Table.table_widths_x FLEXMIN false false (tb_o t) _ W) as [ws|e|k]; [|reflexivity|reflexivity].
     rewrite forallb_forall in Hrows. rewrite Forall_forall in IH.
     apply first_some_map_none. intros row Hrow.
     specialize (IH row Hrow). specialize (Hrows row Hrow). rewrite forallb_forall in Hrows. rewrite Forall_forall in IH.
